@@ -210,6 +210,7 @@ def run_case(case) -> Dict[str, Any]:
     c = sp.client
     probs: List[Dict[str, Any]] = []
     outcomes: List[Tuple] = []
+    kept: List[Tuple] = []  # every returned message stays alive: later reads must not change it
     try:
         with warnings.catch_warnings():
             warnings.simplefilter("ignore")
@@ -221,7 +222,12 @@ def run_case(case) -> Dict[str, Any]:
                 st = (set(), True)
             ref = RefReader(stream, close, tc)
             if close is None:
-                sp.feed(stream)
+                if case.get("split"):
+                    # the same bytes in two TCP segments (a recv without MSG_WAITALL stops at the segment end)
+                    sp.feed(stream[:case["split"]])
+                    sp.feed(stream[case["split"]:])
+                else:
+                    sp.feed(stream)
             else:
                 if close[1]:
                     sp.feed(stream[:close[1]])
@@ -250,6 +256,7 @@ def run_case(case) -> Dict[str, Any]:
                         hb = bytes(m.header)
                         h = P.hstruct(tc).unpack(hb)
                         got = ("msg", h[:3] + h[4:], bytes(m.data))
+                        kept.append((k, m, hb, bytes(m.data)))
                         # filtering, independent of the reference
                         mt = h[0]
                         if not c._sub_all and mt not in c.subscribed_types and not (case["ack"] and mt == P.MT_ACKNOWLEDGE):
@@ -278,6 +285,10 @@ def run_case(case) -> Dict[str, Any]:
                     break
                 if got == ("none",) and ref.avail() == 0 and close is None:
                     break
+        for k, m, hb, db in kept:
+            if bytes(m.header) != hb or bytes(m.data) != db:
+                probs.append({"kind": "returned-message-changed-by-a-later-read", "call": k})
+                break
     finally:
         sp.close()
     return {"problems": probs, "calls": len(outcomes), "sig": tuple(o[0] if o[0] != "exc" else o[1] for o in outcomes)}
@@ -330,6 +341,22 @@ def cases(tier: str) -> List[Dict[str, Any]]:
                     for how in ("fin", "rst"):
                         for to, ack, sync in ((0.1, False, False), (-1, False, True)) if n > 1 else params[:8:3] + params[8::3]:
                             out.append(dict(tc=tc, kinds=list(seq), timeout=to, ack=ack, sync=sync, close=[how, off]))
+    # a frame arriving in two segments, cut at every offset, followed by a good frame
+    for tc in (False, True):
+        for kind in KINDS:
+            flen = len(mk(kind, tc, 0))
+            for off in range(1, flen):
+                for to, ack, sync, init in ((0.1, False, False, None), (-1, True, True, "all")):
+                    if tier == "quick" and tc and init is None:
+                        continue
+                    d = dict(tc=tc, kinds=[kind, "good"], timeout=to, ack=ack, sync=sync, split=off)
+                    if init:
+                        d["init"] = init
+                    out.append(d)
+    # several frames with payloads, all kept by the caller, read while subscribed to everything / to single types
+    for tc in (False, True):
+        for seq in itertools.product(("good", "unsub", "larger", "signal"), repeat=3):
+            out.append(dict(tc=tc, kinds=list(seq), timeout=0.1, ack=False, sync=False, init="all"))
     # the same Client object on a second connection; a type redefined between reads
     for tc in (False, True):
         for init in ("none", "subs", "all", "paused"):
